@@ -353,8 +353,82 @@ def mutation_groups(ctx, which):
     return groups
 
 
+# ---- recombinations enumerated from the symbolic model HssSym.tla (GenSym.tla) -------------------
+def gen_sym(ctx, cfg, sample):
+    outp = os.path.join(ctx["workdir"], "sym_%s.ndjson" % cfg.replace(".cfg", ""))
+    rc, out, st = run_tlc("GenSym", cfg, os.path.join(ctx["workdir"], "meta-" + cfg), env={"GEN_OUT": outp, "GEN_SAMPLE": str(sample)},
+                          timeout=1500, xmx="8g")
+    if rc != 0 or not os.path.exists(outp):
+        raise ToolError("GenSym failed: " + out[-1500:])
+    return [json.loads(x) for x in open(outp)]
+
+
+SYM_CFGS = {"GenSym.cfg": {"keys": ["A", "B"], "ctrs": [1, 2, 6], "levels": 2}, "GenSym_3.cfg": {"keys": ["A"], "ctrs": [1, 6, 22], "levels": 3}}
+
+
+def sym_groups(ctx):
+    quick = ctx["tier"] == "quick"
+    groups = []
+    stats = {}
+    for ci, (cfg, u) in enumerate(SYM_CFGS.items()):
+        terms = gen_sym(ctx, cfg, 400 if quick else 6000)
+        stats[cfg] = {"recombinations": len(terms), "accepted_by_model": sum(1 for t in terms if t["accept"])}
+        # the same recombinations on the bytes of two hash / Winternitz choices
+        for vi, (alg, w) in enumerate([("sha256_n16", 8), ("shake256_n24", 4)] if quick else [("sha256_n16", 8), ("shake256_n24", 4), ("sha256_n32", 2), ("shake256_n16", 1)]):
+            if quick and (ci + vi) % 2:
+                continue
+            n = N_OF[alg]
+            L = u["levels"]
+            params = [(w, 2)] * L
+            p = {1: 8 * n + 9, 2: 4 * n + 5, 4: 2 * n + 3, 8: n + 2}[w]
+            S = 12 + n + n * p + 2 * n
+            Pb = 24 + n
+            name = "c02/sym/%s/%s/w%d" % (cfg.replace(".cfg", ""), alg, w)
+            pre = []
+            for k in u["keys"]:
+                pre.append(cmd_keygen(alg, params, seed_hex("%s/%s" % (name, k), alg), out={"sk": "sk_" + k, "pk": "pk_" + k}))
+                for c in u["ctrs"]:
+                    pre.append({"op": "set", "slot": "m_%s_%d" % (k, c), "value": msg_hex("%s/%s/%d" % (name, k, c), 16)})
+                    pre.append(cmd_sign(alg, key_at("sk_" + k, c), slot("m_%s_%d" % (k, c)), out={"sig": "sig_%s_%d" % (k, c)}, light=True))
+
+            def sigc(x):
+                return {"slice": slot("sig_%s_%d" % (x["k"], x["c"])), "off": 4 + (x["i"] - 1) * (S + Pb), "len": S}
+
+            def treec(x):
+                if x["i"] == 1:
+                    return {"slice": slot("pk_" + x["k"]), "off": 4, "len": Pb}
+                return {"slice": slot("sig_%s_%d" % (x["k"], x["c"])), "off": 4 + (x["i"] - 2) * (S + Pb) + S, "len": Pb}
+
+            chunk = 120
+            for start in range(0, len(terms), chunk):
+                cmds = list(pre)
+                for t in terms[start:start + chunk]:
+                    parts = ["%08x" % t["nspk"]]
+                    for sp in t["spks"]:
+                        parts += [sigc(sp["sig"]), treec(sp["pub"])]
+                    parts.append(sigc(t["last"]))
+                    msg = slot("m_%s_%d" % (t["msg"]["k"], t["msg"]["c"])) if t["msg"]["kind"] == "m" else treec(t["msg"])
+                    pk = {"cat": ["%08x" % t["pk"]["L"], treec(t["pk"])]}
+                    cmds.append(cmd_verify(alg, msg, {"cat": parts}, pk, meta={"class": "sym", "sym_accept": t["accept"], "nspk": t["nspk"]}))
+                groups.append({"name": "%s/%d" % (name, start), "cmds": cmds,
+                               "cost": 1 + len(cmds) * 0.004 * p * ((1 << w) - 1) / 100})
+    ctx["sym_stats"] = stats
+    return groups
+
+
+def sym_design(ctx):
+    runs = [{"module": "HssSym", "cfg": "MC_Sym_2.cfg", "workers": 8, "xmx": "8g"},
+            {"module": "HssSym", "cfg": "MC_Sym_neg_level.cfg", "workers": 2, "expect": "Invariant AcceptsExactlySegments is violated"},
+            {"module": "HssSym", "cfg": "MC_Sym_neg_content.cfg", "workers": 2, "expect": "Invariant AcceptsExactlySegments is violated"},
+            {"module": "HssSym", "cfg": "MC_Sym_neg_tree.cfg", "workers": 2, "expect": "Invariant AcceptsExactlySegments is violated"}]
+    if ctx["tier"] != "quick":
+        runs.append({"module": "HssSym", "cfg": "MC_Sym_3.cfg", "workers": 16, "xmx": "16g", "timeout": 3000})
+    return runs
+
+
 def c02_phases(ctx):
     groups = mutation_groups(ctx, "c02")
+    groups += sym_groups(ctx)
     if ctx["tier"] != "quick":
         groups += every_byte_groups(ctx)
     return [{"tag": "c02", "groups": groups,
@@ -414,6 +488,16 @@ API_POSITIVE_THOROUGH = [("MC_Api_22.cfg", 12), ("MC_Api_2keys.cfg", 12), ("MC_A
 API_NEGATIVE = [("MC_Api_neg_stale.cfg", "Invariant NoReuse is violated"),
                 ("MC_Api_neg_early.cfg", "Action property SigReturnedOnlyViaOk is violated"),
                 ("MC_Api_neg_noadvance.cfg", "Invariant NoReuse is violated")]
+
+
+def inductive_design():
+    """Apalache: inductive invariant of the counter protocol for EVERY lifetime T (spec/apalache/CounterInd.tla)"""
+    A = "CounterIndApa"
+    return [{"module": "apalache/CounterInd", "cfg": "apalache/CounterInd.cfg", "workers": 2, "xmx": "2g"},       # TLC on the same module, T = 6
+            {"engine": "apalache", "module": A, "args": ["--cinit=ConstInit", "--init=Init", "--inv=IndInv", "--length=0"]},
+            {"engine": "apalache", "module": A, "args": ["--cinit=ConstInit", "--init=IndInit", "--inv=IndInv", "--length=1"]},
+            {"engine": "apalache", "module": A, "args": ["--cinit=ConstInit", "--init=IndInit", "--inv=Safety", "--length=0"]},
+            {"engine": "apalache", "module": A, "args": ["--cinit=ConstInitEarly", "--init=IndInit", "--inv=IndInv", "--length=1"], "expect": "Error"}]
 
 
 def api_design(ctx, negatives=None):
@@ -621,7 +705,7 @@ def api_cov(ctx, cov):
 
 for _p, _neg in (("C03", ["MC_Api_neg_stale.cfg", "MC_Api_neg_noadvance.cfg"]), ("C04", ["MC_Api_neg_early.cfg"]),
                  ("C05", ["MC_Api_neg_noadvance.cfg"]), ("C09", [])):
-    REGISTRY[_p] = {"design": (lambda neg: (lambda ctx: api_design(ctx, neg)))(_neg),
+    REGISTRY[_p] = {"design": (lambda neg, ind: (lambda ctx: api_design(ctx, neg) + (inductive_design() if ind else [])))(_neg, _p in ("C03", "C04")),
                     "phases": (lambda p: (lambda ctx: api_phases(ctx, p.lower())))(_p),
                     "coverage_extra": api_cov, "neg_cfgs": ["TraceApi_negSucc.cfg"]}
 
@@ -843,7 +927,7 @@ def c13_design(ctx):
     if ctx["tier"] == "quick":
         return [{"module": "MC_Arith", "cfg": "MC_Arith_quick.cfg", "workers": 16, "xmx": "8g"}]
     return [{"module": "MC_Arith", "cfg": "MC_Arith_quick.cfg", "workers": 16, "xmx": "8g"},
-            {"module": "MC_Arith", "cfg": "MC_Arith_full.cfg", "workers": 16, "xmx": "8g", "timeout": 3000}]
+            {"module": "MC_Arith", "cfg": "MC_Arith_full.cfg", "workers": 16, "xmx": "8g", "timeout": 9000}]
 
 
 REGISTRY["C13"] = {"phases": c13_phases, "design": c13_design,
@@ -1319,6 +1403,8 @@ def vectors_design(ctx):
 
 for _p in ("C02", "C07", "C01"):
     REGISTRY[_p]["design"] = vectors_design
+REGISTRY["C02"]["design"] = lambda ctx: vectors_design(ctx) + sym_design(ctx)
+REGISTRY["C02"]["coverage_extra"] = lambda ctx, cov: {"symbolic_model_recombinations": ctx.get("sym_stats")}
 
 
 def c01_design(ctx):
